@@ -345,5 +345,281 @@ theorem refusalSeq (rev : List Nat) (seqs : List (List Nat)) (h : seqTotal seqs 
   rw [if_pos h]
   exact ⟨_, rfl⟩
 
+/-! ### GSUB 4.1 -/
+
+theorem ligOffsets_length : ∀ (ls : List Lig) (pos : Nat), (ligOffsets ls pos).length = ls.length
+  | [], _ => rfl
+  | _ :: ls, pos => by simp [ligOffsets, ligOffsets_length ls]
+
+theorem ligOffsets_lt : ∀ (ls : List Lig) (pos : Nat), ∀ w ∈ ligOffsets ls pos, w < 65536
+  | [], _, w, hw => by simp [ligOffsets] at hw
+  | _ :: ls, pos, w, hw => by
+    simp only [ligOffsets, List.mem_cons] at hw
+    rcases hw with rfl | hw
+    · exact w16_lt _
+    · exact ligOffsets_lt ls _ w hw
+
+theorem ligSetOffsets_length : ∀ (ss : List (List Lig)) (t : Nat), (ligSetOffsets ss t).length = ss.length
+  | [], _ => rfl
+  | _ :: ss, t => by simp [ligSetOffsets, ligSetOffsets_length ss]
+
+theorem ligSetOffsets_lt : ∀ (ss : List (List Lig)) (t : Nat), ∀ w ∈ ligSetOffsets ss t, w < 65536
+  | [], _, w, hw => by simp [ligSetOffsets] at hw
+  | _ :: ss, t, w, hw => by
+    simp only [ligSetOffsets, List.mem_cons] at hw
+    rcases hw with rfl | hw
+    · exact w16_lt _
+    · exact ligSetOffsets_lt ss _ w hw
+
+/-- glyph ids of a ligature are 16-bit values -/
+def LigOk (l : Lig) : Prop := l.out < 65536 ∧ ∀ x ∈ l.inp, x < 65536
+
+theorem ligWords_lt (l : Lig) (h : LigOk l) : ∀ w ∈ ligWords l, w < 65536 := by
+  intro w hw
+  simp only [ligWords, List.mem_cons] at hw
+  rcases hw with rfl | rfl | hw
+  · exact h.1
+  · exact w16_lt _
+  · exact h.2 w hw
+
+theorem flatMap_ligWords_lt (ls : List Lig) (h : ∀ l ∈ ls, LigOk l) : ∀ w ∈ ls.flatMap ligWords, w < 65536 := by
+  intro w hw
+  rw [List.mem_flatMap] at hw
+  obtain ⟨l, hl, hw⟩ := hw
+  exact ligWords_lt l (h l hl) w hw
+
+theorem ligSetWords_lt (s : List Lig) (h : ∀ l ∈ s, LigOk l) : ∀ w ∈ ligSetWords s, w < 65536 := by
+  intro w hw
+  simp only [ligSetWords, List.mem_cons, List.mem_append] at hw
+  rcases hw with rfl | hw | hw
+  · exact w16_lt _
+  · exact ligOffsets_lt _ _ w hw
+  · exact flatMap_ligWords_lt s h w hw
+
+theorem flatMap_ligWords_length : ∀ (ls : List Lig),
+    2 * (ls.flatMap ligWords).length = (ls.map fun l => 4 + 2 * l.inp.length).sum
+  | [] => rfl
+  | l :: ls => by
+    simp only [List.flatMap_cons, List.length_append, ligWords, List.length_cons, List.map_cons, List.sum_cons]
+    have := flatMap_ligWords_length ls
+    omega
+
+theorem ligSetWords_length (s : List Lig) : 2 * (ligSetWords s).length = ligSetLen s := by
+  simp only [ligSetWords, List.length_cons, List.length_append, ligOffsets_length, ligSetLen]
+  have := flatMap_ligWords_length s
+  omega
+
+/-- the ligatures of one set are found at their offsets from the start of the set -/
+theorem readLigs_spec (c : Bytes) (setPos : Nat) : ∀ (ls : List Lig) (Q T : List Nat) (pos0 : Nat),
+    (∀ w ∈ Q, w < 65536) → (∀ w ∈ T, w < 65536) → (∀ l ∈ ls, LigOk l) →
+    setPos + pos0 = 2 * Q.length → pos0 + 2 * (ls.flatMap ligWords).length < 65536 →
+    readLigs (wordsToBytes (Q ++ (ls.flatMap ligWords ++ T)) ++ c) setPos (ligOffsets ls pos0) = .ok ls
+  | [], _, _, _, _, _, _, _, _ => rfl
+  | l :: ls, Q, T, pos0, hQ, hT, hL, hpos, hfit => by
+    simp only [List.flatMap_cons, List.length_append, ligWords, List.length_cons] at hfit
+    simp only [ligOffsets, readLigs]
+    rw [w16_of_lt (by omega)]
+    have hrl : readLig (wordsToBytes (Q ++ ((l :: ls).flatMap ligWords ++ T)) ++ c) (setPos + pos0) = .ok l := by
+      unfold readLig
+      rw [hpos, drop_wordsToBytes_append']
+      have hlt : ∀ w ∈ (l :: ls).flatMap ligWords ++ T, w < 65536 := by
+        intro w hw
+        rw [List.mem_append] at hw
+        rcases hw with hw | hw
+        · exact flatMap_ligWords_lt _ hL w hw
+        · exact hT w hw
+      rw [bytesToWords_append _ hlt]
+      simp only [List.flatMap_cons, ligWords, List.cons_append, List.append_assoc]
+      rw [w16_of_lt (by omega)]
+      have e : (l.inp.length + 1 + 65535) % 65536 = l.inp.length := by omega
+      simp only [e]
+      rw [if_neg (by simp), List.take_left]
+    rw [hrl]
+    have ih := readLigs_spec c setPos ls (Q ++ ligWords l) T (pos0 + 4 + 2 * l.inp.length)
+      (by intro w hw
+          rw [List.mem_append] at hw
+          rcases hw with hw | hw
+          · exact hQ w hw
+          · exact ligWords_lt l (hL l (by simp)) w hw)
+      hT (fun l' hl' => hL l' (by simp [hl']))
+      (by simp only [List.length_append, ligWords, List.length_cons]; omega)
+      (by omega)
+    have e1 : Q ++ ((l :: ls).flatMap ligWords ++ T) = (Q ++ ligWords l) ++ (ls.flatMap ligWords ++ T) := by
+      simp
+    rw [e1, ih]
+
+/-- every ligature set is found at the offset the encoder wrote for it -/
+theorem readLigSets_spec (c : Bytes) : ∀ (sets : List (List Lig)) (P T : List Nat),
+    (∀ w ∈ P, w < 65536) → (∀ w ∈ T, w < 65536) → (∀ s ∈ sets, ∀ l ∈ s, LigOk l) →
+    2 * P.length + (sets.map ligSetLen).sum < 65536 →
+    readLigSets (wordsToBytes (P ++ (sets.flatMap ligSetWords ++ T)) ++ c)
+      (ligSetOffsets sets (2 * P.length)) = .ok sets
+  | [], _, _, _, _, _, _ => rfl
+  | s :: ss, P, T, hP, hT, hS, hfit => by
+    simp only [List.map_cons, List.sum_cons] at hfit
+    have hlen := ligSetWords_length s
+    have hsl : s.length < 65536 := by simp only [ligSetLen] at hfit hlen ⊢; omega
+    have hlt : ∀ w ∈ (s :: ss).flatMap ligSetWords ++ T, w < 65536 := by
+      intro w hw
+      rw [List.mem_append, List.mem_flatMap] at hw
+      rcases hw with ⟨s', hs', hw⟩ | hw
+      · exact ligSetWords_lt s' (hS s' hs') w hw
+      · exact hT w hw
+    -- the words at the offset of this set
+    have hwords : bytesToWords ((wordsToBytes (P ++ ((s :: ss).flatMap ligSetWords ++ T)) ++ c).drop
+        (2 * P.length)) = s.length :: (ligOffsets s (2 + 2 * s.length) ++ (s.flatMap ligWords ++
+          (ss.flatMap ligSetWords ++ (T ++ bytesToWords c)))) := by
+      rw [drop_wordsToBytes_append', bytesToWords_append _ hlt]
+      simp [ligSetWords, w16_of_lt hsl]
+    have htake : (ligOffsets s (2 + 2 * s.length) ++ (s.flatMap ligWords ++
+        (ss.flatMap ligSetWords ++ (T ++ bytesToWords c)))).take s.length =
+        ligOffsets s (2 + 2 * s.length) := by
+      have := ligOffsets_length s (2 + 2 * s.length)
+      generalize ligOffsets s (2 + 2 * s.length) = lo at this ⊢
+      rw [← this]; exact List.take_left
+    -- the ligatures of this set
+    have hls := readLigs_spec c (2 * P.length) s (P ++ (s.length :: ligOffsets s (2 + 2 * s.length)))
+      (ss.flatMap ligSetWords ++ T) (2 + 2 * s.length)
+      (by intro w hw
+          simp only [List.mem_append, List.mem_cons] at hw
+          rcases hw with hw | rfl | hw
+          · exact hP w hw
+          · exact hsl
+          · exact ligOffsets_lt _ _ w hw)
+      (by intro w hw
+          rw [List.mem_append, List.mem_flatMap] at hw
+          rcases hw with ⟨s', hs', hw⟩ | hw
+          · exact ligSetWords_lt s' (hS s' (by simp [hs'])) w hw
+          · exact hT w hw)
+      (hS s (by simp))
+      (by simp only [List.length_append, List.length_cons, ligOffsets_length]; omega)
+      (by have := flatMap_ligWords_length s
+          simp only [ligSetLen] at hfit
+          omega)
+    have e1 : (P ++ (s.length :: ligOffsets s (2 + 2 * s.length))) ++
+          (s.flatMap ligWords ++ (ss.flatMap ligSetWords ++ T)) =
+        P ++ ((s :: ss).flatMap ligSetWords ++ T) := by
+      simp [ligSetWords, w16_of_lt hsl]
+    rw [e1] at hls
+    -- the remaining sets
+    have ih := readLigSets_spec c ss (P ++ ligSetWords s) T
+      (by intro w hw
+          rw [List.mem_append] at hw
+          rcases hw with hw | hw
+          · exact hP w hw
+          · exact ligSetWords_lt s (hS s (by simp)) w hw)
+      hT (fun s' hs' => hS s' (by simp [hs']))
+      (by simp only [List.length_append]; omega)
+    have e2 : (P ++ ligSetWords s) ++ (ss.flatMap ligSetWords ++ T) =
+        P ++ ((s :: ss).flatMap ligSetWords ++ T) := by
+      simp
+    have e3 : 2 * (P ++ ligSetWords s).length = 2 * P.length + ligSetLen s := by
+      simp only [List.length_append]; omega
+    rw [e2, e3] at ih
+    generalize wordsToBytes (P ++ ((s :: ss).flatMap ligSetWords ++ T)) ++ c = b at hwords hls ih ⊢
+    simp only [ligSetOffsets, readLigSets]
+    rw [w16_of_lt (by omega), hwords]
+    simp only
+    rw [if_neg (by simp [ligOffsets_length]), htake, hls, ih]
+
+theorem flatMap_ligSetWords_length : ∀ (ss : List (List Lig)),
+    2 * (ss.flatMap ligSetWords).length = (ss.map ligSetLen).sum
+  | [] => rfl
+  | s :: ss => by
+    simp only [List.flatMap_cons, List.length_append, List.map_cons, List.sum_cons]
+    have := flatMap_ligSetWords_length ss
+    have := ligSetWords_length s
+    omega
+
+theorem lig41Total_eq (repl : List (List Lig)) :
+    lig41Total repl = 2 * (1 :: lig41Total repl :: repl.length ::
+      (ligSetOffsets repl (6 + 2 * repl.length) ++ repl.flatMap ligSetWords)).length := by
+  have := flatMap_ligSetWords_length repl
+  simp only [lig41Total, List.length_cons, List.length_append, ligSetOffsets_length]
+  omega
+
+theorem roundtrip41 (rev : List Nat) (repl : List (List Lig)) (h : Cov.Valid rev)
+    (hl : repl.length = rev.length) (hs : ∀ s ∈ repl, ∀ l ∈ s, LigOk l)
+    (hfit : lig41Total repl ≤ 0xFFFF) :
+    ∃ b, encode41 rev repl = .ok b ∧ readSubtable 4 b = .ok (.s41 rev.zipIdx repl) ∧
+      encodeLen41 rev repl = .ok b.length := by
+  have hfit' := hfit
+  simp only [lig41Total] at hfit'
+  have hS := flatMap_ligSetWords_length repl
+  refine ⟨wordsToBytes (1 :: lig41Total repl :: repl.length ::
+    (ligSetOffsets repl (6 + 2 * repl.length) ++ repl.flatMap ligSetWords)) ++
+    wordsToBytes (Cov.encodeW rev), ?_, ?_, ?_⟩
+  · simp only [encode41, Cov.encodeLen_eq rev h, Cov.encode_eq rev h]
+    rw [if_neg (by omega), w16_of_lt (by omega), w16_of_lt (by omega)]
+    rfl
+  · have hlt : ∀ w ∈ 1 :: lig41Total repl :: repl.length ::
+        (ligSetOffsets repl (6 + 2 * repl.length) ++ repl.flatMap ligSetWords), w < 65536 := by
+      intro w hw
+      simp only [List.mem_cons, List.mem_append, List.mem_flatMap] at hw
+      rcases hw with rfl | rfl | rfl | hw | ⟨s, hs', hw⟩
+      · decide
+      · omega
+      · omega
+      · exact ligSetOffsets_lt _ _ w hw
+      · exact ligSetWords_lt s (hs s hs') w hw
+    have hw : bytesToWords (wordsToBytes (1 :: lig41Total repl :: repl.length ::
+        (ligSetOffsets repl (6 + 2 * repl.length) ++ repl.flatMap ligSetWords)) ++
+        wordsToBytes (Cov.encodeW rev)) =
+        1 :: lig41Total repl :: repl.length ::
+          (ligSetOffsets repl (6 + 2 * repl.length) ++ repl.flatMap ligSetWords ++ Cov.encodeW rev) := by
+      rw [bytesToWords_append _ hlt, bytesToWords_wordsToBytes _ (Cov.encodeW_lt rev h)]
+      simp
+    have hdrop : (wordsToBytes (1 :: lig41Total repl :: repl.length ::
+        (ligSetOffsets repl (6 + 2 * repl.length) ++ repl.flatMap ligSetWords)) ++
+        wordsToBytes (Cov.encodeW rev)).drop (lig41Total repl) = wordsToBytes (Cov.encodeW rev) := by
+      have e := lig41Total_eq repl
+      generalize lig41Total repl = t at e ⊢
+      rw [e]
+      exact drop_wordsToBytes_append _ _
+    have hrd : Cov.read (wordsToBytes (Cov.encodeW rev)) = .ok rev.zipIdx := by
+      unfold Cov.read
+      rw [bytesToWords_wordsToBytes _ (Cov.encodeW_lt rev h)]
+      exact (Cov.readW_encodeW rev h).1
+    have hlen : ¬ (ligSetOffsets repl (6 + 2 * repl.length) ++ repl.flatMap ligSetWords ++
+        Cov.encodeW rev).length < repl.length := by simp [ligSetOffsets_length]
+    have htake : (ligSetOffsets repl (6 + 2 * repl.length) ++ repl.flatMap ligSetWords ++
+        Cov.encodeW rev).take repl.length = ligSetOffsets repl (6 + 2 * repl.length) := by
+      rw [List.append_assoc]
+      have := ligSetOffsets_length repl (6 + 2 * repl.length)
+      generalize ligSetOffsets repl (6 + 2 * repl.length) = offs at this ⊢
+      rw [← this]
+      exact List.take_left
+    have hsets := readLigSets_spec (wordsToBytes (Cov.encodeW rev)) repl
+      (1 :: lig41Total repl :: repl.length :: ligSetOffsets repl (6 + 2 * repl.length)) []
+      (by intro w hw
+          simp only [List.mem_cons] at hw
+          rcases hw with rfl | rfl | rfl | hw
+          · decide
+          · omega
+          · omega
+          · exact ligSetOffsets_lt _ _ w hw)
+      (by simp) hs
+      (by simp only [List.length_cons, ligSetOffsets_length]; omega)
+    have e3 : 2 * (1 :: lig41Total repl :: repl.length :: ligSetOffsets repl (6 + 2 * repl.length)).length
+        = 6 + 2 * repl.length := by
+      simp only [List.length_cons, ligSetOffsets_length]; omega
+    rw [e3] at hsets
+    simp only [List.append_nil, List.cons_append] at hsets
+    simp only [readSubtable, hw, read41, hdrop, hrd, hlen, if_false, htake]
+    rw [prune_same _ _ (by simp [hl, ligSetOffsets_length])]
+    have hnot : ¬ lig41Total repl > 65535 := by omega
+    simp [hsets, hnot]
+  · simp only [encodeLen41, Cov.encodeLen_eq rev h, List.length_append, length_wordsToBytes,
+      ← Cov.encodeW_length rev h]
+    have := lig41Total_eq repl
+    congr 1
+    omega
+
+theorem refusal41 (rev : List Nat) (repl : List (List Lig)) (h : Cov.Valid rev)
+    (hbig : lig41Total repl > 0xFFFF) : ∃ s, encode41 rev repl = .panic s := by
+  simp only [encode41, Cov.encodeLen_eq rev h]
+  rw [if_pos hbig]
+  exact ⟨_, rfl⟩
+
 end Gsub
 end SfntV.Otl
